@@ -32,7 +32,9 @@ def hostile_names(draw):
 
 @st.composite
 def cases(draw, tier="quick"):
-    nm = st.one_of(hostile_names(), hostile_names(), treemodel.name_bytes(allow_newline=False, maxlen=255)).filter(
+    # names that merely start with dots ('..data', '...', '.x') are ordinary names
+    dotted = st.tuples(st.sampled_from([b"..", b"...", b".", b".. ", b"..\""]), st.sampled_from([b"data", b"", b"2024_01_01.conf", b".", b"a b"])).map(lambda t: t[0] + t[1])
+    nm = st.one_of(hostile_names(), hostile_names(), dotted, treemodel.name_bytes(allow_newline=False, maxlen=255)).filter(
         lambda b: b not in (b".", b"..") and b"/" not in b and b"\n" not in b and b"\0" not in b)
     n = draw(st.integers(1, 10))
     nodes, dirs, used = [], [b""], set()
